@@ -302,11 +302,17 @@ def run_check(ctx):
         truth = _idbm.header_truth(H[n])
         if truth:
             st["truth"] = truth
-            ntruth += len(truth)
+            have = {"e": {r["sn"] for r in raws[tag]["e"]}, "s": {r["sn"] for r in raws[tag]["s"]},
+                    "b": {r["sn"] for r in raws[tag]["t"] if r["fd"]}}
+            ntruth += sum(1 for x in truth if x["sn"] in have[x["k"]])      # entries whose record exists
         states.append(st)
+    mstates, minfo = merged_states(ctx, work)
+    states += mstates
     cover = _idbm.field_coverage([raws[t] for t in raws if not raws[t]["err"]])
     ctx.notes["index_field_coverage"] = cover
     ctx.notes["ground_truth_links_checked"] = ntruth
+    if not ntruth:
+        raise MachineryError("no ground-truth entry of any header matched a database record")
     holes = sum(1 for t in raws if any((x["fl"] & 0x180) == 0x180 and x["wrapped"] == 0 for x in raws[t]["t"]))
     ctx.notes["databases_with_a_pointer_to_a_removed_type"] = holes
     if not holes:
@@ -325,6 +331,16 @@ def run_check(ctx):
         ctx.cov["states"] += r.generated
         ctx.cov["transitions"] += r.generated
     info = {tag: (n, b, o) for tag, n, b, o in dbs}
+    for mid, (sn, order, raw) in minfo.items():
+        v = verdicts.pop(mid)
+        if not v["ok"]:
+            failed = [k for k in ("closed", "vectors", "union") if not v[k]] + \
+                     [k for k in ("open", "links", "owners", "names", "sigs", "dupTrueNames") if v[k]]
+            ctx.violation("libraries of set %s requested together in the order %s: the merged database violates %s: %s" % (
+                sn, order, ", ".join(failed), describe(raw, v)), dict(set=sn, order=order, verdict=v))
+    ctx.notes["merged_databases_checked"] = len(minfo)
+    ctx.cov["evaluations"] += len(minfo)
+    ctx.cov["traces_validated_against_impl"] += len(minfo)
     nrec = 0
     nontrivial = set()
     for tag, v in sorted(verdicts.items()):
@@ -337,7 +353,7 @@ def run_check(ctx):
             continue
         n, b, o = info[tag]
         failed = [k for k in ("closed", "vectors", "wrappersFirst") if not v[k]] + \
-                 [k for k in ("open", "links", "backlinks", "owners", "names", "truth", "dupTrueNames", "dupUnique", "dupWrapperNames") if v[k]]
+                 [k for k in ("open", "links", "backlinks", "owners", "names", "sigs", "truth", "dupTrueNames", "dupUnique", "dupWrapperNames") if v[k]]
         names = describe(raw, v)
         ctx.violation("database of %s.h with %s %s violates %s: %s" % (n, b, " ".join(o), ", ".join(failed), names),
                       dict(header=H[n], backend=b, options=o, verdict=v))
@@ -382,17 +398,55 @@ def run_check(ctx):
     ctx.notes["c_outputs_compiled_with_db_declarations"] = ncomp
 
 
+def merged_states(ctx, work):
+    """Sets of libraries that include each other (one forward-declares / uses what another defines, derivation,
+    nested, outer and wrapped links across libraries), requested TOGETHER in every order: the merged database is
+    dumped by raw index and gets the same closure / link / name rules, plus Union against the single databases."""
+    import itertools
+    from . import c13
+    names = ["fwd", "chain", "nsenum", "pair", "conflict"] + (["diamond"] if ctx.tier == "thorough" else [])
+    mwork = os.path.join(work, "merged")
+    os.makedirs(mwork)
+    sets = c13.build_sets(ctx, mwork, names)
+    lines, cases = [], {}
+    for sn, libs in sets.items():
+        for lib, path in libs:
+            lines += ["case s/%s/%s" % (sn, lib), "reqdb " + path, "raw", "end"]
+        for pi, perm in enumerate(itertools.permutations(libs)):
+            cid = "m/%s/%d" % (sn, pi)
+            lines += ["case " + cid] + ["reqdb " + p for _, p in perm] + ["raw", "end"]
+            cases[cid] = (sn, [l for l, _ in perm])
+    got, _ = _idbm.run_script(lines, mwork, "merged")
+
+    def raw_of(cid):
+        st = got.get(cid, [])
+        rr = [x for x in st if x.get("op") == "raw"]
+        if not rr or st[-1].get("exit") != 0 or rr[0]["err"]:
+            raise MachineryError("could not load %s" % cid)
+        return rr[0]
+    singles = {(sn, lib): _idbm.raw_to_model(raw_of("s/%s/%s" % (sn, lib))) for sn, libs in sets.items() for lib, _ in libs}
+    states, info = [], {}
+    for cid, (sn, order) in cases.items():
+        raw = raw_of(cid)
+        states.append(dict(id=cid, first=1, single=0, db=_idbm.raw_to_model(raw), singles=[singles[(sn, l)] for l in order]))
+        info[cid] = (sn, order, raw)
+    return states, info
+
+
 def describe(raw, v):
     """Names for the witness indices of a verdict."""
     out = []
     tabs = {k: {x["i"]: x for x in raw[k]} for k in ("w", "f", "t", "m", "e", "s")}
     for x in list(v.get("truth") or [])[:4]:
+        if x["k"] == "b":
+            out.append("truth: base %d of %s must be %s%s" % (x["idx"], x["sn"], x["base"], " (virtual: no downcast)" if x["virt"] else ""))
+            continue
         src = {r["sn"]: r for r in raw["e" if x["k"] == "e" else "s"]}
         fn = {f["i"]: f["sn"] for f in raw["f"]}
         r = src.get(x["sn"])
         out.append("truth: %s.%s must be %r, database links %r" % (x["sn"], x["f"], x["fn"],
                    "<no such record>" if r is None else fn.get(r[x["f"]], r[x["f"]] or "")))
-    for x in list(v.get("owners") or [])[:3] + list(v.get("names") or [])[:3]:
+    for x in list(v.get("owners") or [])[:3] + list(v.get("names") or [])[:3] + list(v.get("sigs") or [])[:3]:
         out.append("by-name rule %s" % (x,))
     for key in ("open", "links", "backlinks", "dupTrueNames", "dupUnique", "dupWrapperNames"):
         for i in list(v.get(key) or [])[:4]:
